@@ -12,7 +12,7 @@ import numpy as np
 
 from harness import tlc
 from harness.core import Machinery
-from harness.gnpy_util import udb, EX, TD
+from harness.gnpy_util import udb, EX, TD, INF
 from harness.record import Recording, snapshot as snapshot_of      # noqa: F401 (snapshot_of is used by the checks)
 
 H_PLANCK = 6.62607015e-34
@@ -30,7 +30,11 @@ def dbm(w):
 
 
 def iround(x):
-    return int(round(float(x)))
+    """nearest integer, saturating at the +/-Inf sentinels of GnpyBase (TLC integers are 32 bit)"""
+    x = float(x)
+    if x != x:
+        return -INF + 1
+    return int(max(-INF, min(INF, round(x))))
 
 
 def mhz(f):
@@ -207,7 +211,9 @@ def fiber_alpha_l(el, freqs):
     p = el.params
     lc = np.atleast_1d(np.asarray(p.loss_coef, dtype=float))
     if lc.size > 1:
-        a = np.interp(np.asarray(freqs, dtype=float), np.asarray(p.f_loss_ref, dtype=float), lc)
+        fr = np.asarray(p.f_loss_ref, dtype=float)
+        order = np.argsort(fr)                                # the table is a set of (frequency, value) pairs
+        a = np.interp(np.asarray(freqs, dtype=float), fr[order], lc[order])
     else:
         a = np.full(len(freqs), lc[0])
     return a * p.length
@@ -222,10 +228,26 @@ def fiber_event(ev, raman_on, max_ch=12, with_acc=True, contrib=None):
     pin, pout = dbm(pre['pch']), dbm(post['pch'])
     e = {'k': 'Fiber', 'uid': el.uid, 'attIn': udb(p.att_in), 'conIn': udb(p.con_in), 'conOut': udb(p.con_out),
          'lumped': udb(sum(float(x['loss']) for x in p.lumped_losses)), 'raman': 1 if raman_on else 0,
+         'fresh': 0, 'acc': 1 if with_acc else 0, 'cfg': 0,
          'ch': [{'alphaL': udb(al[k]), 'in': udb(pin[k]), 'out': udb(pout[k])} for k in sel]}
     if with_acc:
         d = contrib.get(ev) if contrib else alone_contribution(ev)
         e.update(acc_fields(pre, post, d, sel, sel))
+        # the span's own contributions as its OWN configuration gives them (unit conversions of configuration inputs):
+        # latency = length / (c / n), group index n of the fibre model; PMD^2 = pmd_coef^2 x length
+        n_group = float(getattr(p, '_n1', 1.468))
+        e.update({'cfg': 1, 'latCfg': ns(p.length * n_group / 299792458.0),
+                  'pmdCfg': iround((float(p.pmd_coef) * 1e15) ** 2 * p.length)})
+    return e
+
+
+def with_fresh_fiber_reference(e, e_fresh):
+    """attach to fibre crossing e the per-channel output of the same crossing made on a FRESH fibre (NoMemory)"""
+    if len(e['ch']) != len(e_fresh['ch']):
+        raise Machinery('fresh reference crossing has another channel set')
+    for c, f in zip(e['ch'], e_fresh['ch']):
+        c['outFresh'] = f['out']
+    e['fresh'] = 1
     return e
 
 
